@@ -7,7 +7,7 @@ from . import fsck as fsckmod
 from . import upstream
 
 
-def gen_config_for(rng, repo, select_all=False):
+def gen_config_for(rng, repo, select_all=False, force_multi=False):
     """returns (lines, cfg_repo) ; cfg_repo = {"codenames": {cn: {comp: {"arches": [...], "source": bool}}}, ...}"""
     url = repo["url"]
     lines = []
@@ -48,7 +48,7 @@ def gen_config_for(rng, repo, select_all=False):
     # them separately (own PRNG, so that everything else of the world stays what it was before this was added)
     r2 = random.Random("multi-codename" + repr(lines))
     cns = sorted(repo["codenames"])
-    if len(cns) >= 2 and r2.random() < 0.4:
+    if len(cns) >= 2 and (r2.random() < 0.4 or force_multi):
         a, b = r2.sample(cns, 2)
         common_c = [c for c in repo["codenames"][a]["components"] if c in repo["codenames"][b]["components"]]
         if common_c:
